@@ -382,3 +382,17 @@ func TestVerifC12FourQFq(t *testing.T) {
 		}
 	})
 }
+
+// Deterministic sweep of isZero over every single-bit and one-limb pattern.
+func TestVerifC12FourQPredicates(t *testing.T) {
+	defer vlib.Done()
+	f := &kit.F{Name: "fourq.Fp", P: c12P, Bits: 127, C: 1}
+	kit.SweepPredicates(t, &kit.Preds[Fp]{F: f, Type: "fourq.Fp", Backend: "asm", From: c12FpFrom,
+		IsZero: func(x *Fp) bool { return x.isZero() }})
+	for half := 0; half < 2; half++ {
+		half := half
+		kit.SweepPredicates(t, &kit.Preds[Fq]{F: f, Type: "fourq.Fq", Backend: fmt.Sprintf("asm/half%d", half),
+			From:   func(v *big.Int) (z Fq) { z[half] = c12FpFrom(v); return },
+			IsZero: func(x *Fq) bool { return x.isZero() }})
+	}
+}
